@@ -210,7 +210,8 @@ def partition_volume(volume: float, *, max_volume: Union[int, float]) -> List[fl
     if volume < max_volume:
         return [volume]
     isteps = math.ceil(volume / max_volume)
-    step_volume = math.ceil(volume / isteps)
+    # whole-µL steps, but never larger than max_volume (which may be smaller than 1 µL or non-integer)
+    step_volume = min(math.ceil(volume / isteps), max_volume)
     volumes: List[float] = [step_volume] * (isteps - 1)
     volumes.append(volume - numpy.sum(volumes))
     return volumes
